@@ -42,7 +42,7 @@ WITNESS = {
         {"op": "DeleteNode", "h": 1}],
     "metric": [
         {"op": "CreateIndex", "label": "A", "prop": "e", "metric": "l2", "backfill": False},
-        {"op": "CreateNode", "h": 1, "labels": ["A"], "vecs": {"e": [2, 0]}},
+        {"op": "CreateNode", "h": 1, "labels": ["A"], "vecs": {"e": [2, 1]}},     # q = (1,0): L2 ranks (1,1) first, cosine (2,1)
         {"op": "CreateNode", "h": 2, "labels": ["A"], "vecs": {"e": [1, 1]}}],
 }
 
